@@ -719,3 +719,12 @@ Proof.
   rewrite (to_lower_camel_upper_word c r Ha), (to_lower_camel_upper_word d s Hb) in H.
   inversion H. f_equal. lia.
 Qed.
+
+(* snake-normal identifiers (lower_snake field names) are their own snake form, so ToSnake is
+   injective on them too *)
+Theorem to_snake_injective_snake_nf : forall a b,
+  ident a = true -> snake_nf a = true -> ident b = true -> snake_nf b = true ->
+  to_snake a = to_snake b -> a = b.
+Proof.
+  intros a b Ha Na Hb Nb H. now rewrite (to_snake_fixed a Ha Na), (to_snake_fixed b Hb Nb) in H.
+Qed.
